@@ -17,7 +17,9 @@ RULE = ('the real ErrorEstimator.sobolev_space / sobolev_time / weighted_l2 / es
         'bit, weighted_l2 equals h_t^-1/2, h_x^-1 times the exact squared L2 norm. distinct = distinct (curve, mesh, element, neighbour, order, residual)')
 ASSUMPTIONS = [
     'exactness range: Slobodeckij order N is exact for degree <= (N-1)/2, the outer Gauss order N_outer integrates degree <= N_outer',
-    'general smooth residuals: 1e-4 at order >= 17 as stated in the property; lower orders are not judged for them',
+    'general smooth residuals: 1e-4 at order >= 17 as stated in the property; lower orders are not judged for them; the trigonometric '
+    'family has wave vectors scaled to the curve (phase variation <= ~2 rad across the curve): the quadrature error is spectral in '
+    '(wave number x patch size), and a half-circle patch with |k| ~ 2.4 reaches 1.9e-4 at order 17 on correct code',
     'the symmetry clause is exercised for the quarter turn of the unit square (dyadic parameters, so the rotated mesh has bit-exact images)',
 ]
 REQUIRED = {t: ['ind:sobolev_space', 'ind:sobolev_time', 'ind:weighted_l2', 'patch:same-piece', 'patch:corner', 'patch:seam', 'patch:circle',
@@ -270,7 +272,10 @@ def run_patch(spec, acc):
         if n_trig < spec['n_trig']:
             n_trig += 1
             Nt = rng.choice([17, 19])
-            a_, b_, c_, w_ = rng.uniform(0.5, 2), rng.uniform(-2, 2), rng.uniform(0, 1), rng.uniform(0, 0.5)
+            # wave vector scaled to the curve: the phase varies by at most ~2 rad over the whole curve, so that the
+            # property's "1e-4 at order 17" is asked of residuals as smooth, relative to the patch, as those it was measured on
+            kmax = 2.0 / {'UnitSquare': 2**0.5, 'PiSquare': math.pi * 2**0.5, 'LShape': 8**0.5, 'Circle': 2.0}[curve]
+            a_, b_, c_, w_ = rng.uniform(0.3, 0.7) * kmax, rng.uniform(-0.7, 0.7) * kmax, rng.uniform(0, 1), rng.uniform(0, 0.5)
             rtrig, F = trig_residual(a_, b_, c_, w_)
             EEt = ErrorEstimator(mesh, N_poly=(Nt, Nt, Nt, Nt))
             wt = dict(wit0, elem=ekey(e), order=Nt, trig=[a_, b_, c_, w_])
